@@ -1032,6 +1032,49 @@ package core
 //@       tcnt(astr(ptr(out[m], "*gdbi.BaseTraveler").Aggregation.Key), len(src)) > 0 &&
 //@       same(ptr(out[m], "*gdbi.BaseTraveler").Aggregation.Value, i2f(tcnt(astr(ptr(out[m], "*gdbi.BaseTraveler").Aggregation.Key), len(src))))
 
+// ---- C19: the field aggregation -----------------------------------------------------
+// field(field): the whole input is consumed; afterwards every emitted row carries the
+// aggregation's name, a key (a string) that occurs in the object the field denotes in at
+// least one input row, and as value exactly the number of input rows whose object has that
+// key (kcnt, defined below row by row with jhas = "is a JSON object with this key"). Rows
+// whose value is not an object count for nothing. Order of the rows and that every
+// occurring key gets a row are not stated (map iteration order; no count of the rows).
+//@ func (*aggregate).Process$5
+//@   vars a aChans out fa fieldCounts t val m ok k term tcount
+//@   property C19 C06
+//@   nopanic
+//@   option prelude=trav,json
+//@   option load=gdbi,gripql,jsonpath
+//@   let src = aChans[a.Name]
+//@   let fld = ptr(a.Aggregation, "*gripql.Aggregate_Field").Field.Field
+//@   requires fresh: a != nil && aChans != nil && has(aChans, a.Name) && src != nil && out != nil && src != out && rd(src) == 0 && len(src) >= 0 && wr(out) == 0 && !closed(out)
+//@   requires arm: dyn(a.Aggregation, "*gripql.Aggregate_Field") && ptr(a.Aggregation, "*gripql.Aggregate_Field") != nil && ptr(a.Aggregation, "*gripql.Aggregate_Field").Field != nil
+//@   requires items: forall j :: 0 <= j && j < len(src) ==> src[j] != nil
+//@   axiom k0: forall n:Str :: kcnt(n, 0) == 0
+//@   axiom kS: forall n:Str, k :: 0 <= k ==> kcnt(n, k + 1) == kcnt(n, k) + ite(jhas(pathLookup(src[k], fld), n), 1, 0)
+//@   loop 1 invariant pos: 0 <= rd(src) && rd(src) <= len(src) && wr(out) == 0 && !closed(out) && fieldCounts != nil
+//@   loop 1 invariant strkeys: forall q:Any :: has(fieldCounts, q) ==> isAStr(q)
+//@   loop 1 invariant counts: forall n:Str :: kcnt(n, rd(src)) >= 0 && (has(fieldCounts, AStr(n)) <==> kcnt(n, rd(src)) > 0) && (has(fieldCounts, AStr(n)) ==> fieldCounts[AStr(n)] == kcnt(n, rd(src)))
+//@   loop 2 invariant pos: 0 < rd(src) && rd(src) <= len(src) && wr(out) == 0 && !closed(out) && fieldCounts != nil && val == pathLookup(src[rd(src) - 1], fld) && isAMap(val)
+//@   loop 2 invariant strkeys: forall q:Any :: has(fieldCounts, q) ==> isAStr(q)
+//@   loop 2 invariant seen: forall n:Str :: visited(n) ==> jhas(val, n)
+//@   loop 2 invariant counts: forall n:Str :: kcnt(n, rd(src) - 1) >= 0 && (has(fieldCounts, AStr(n)) <==> (kcnt(n, rd(src) - 1) > 0 || visited(n))) &&
+//@       (has(fieldCounts, AStr(n)) ==> fieldCounts[AStr(n)] == kcnt(n, rd(src) - 1) + ite(visited(n), 1, 0))
+//@   loop 3 invariant quiet: !closed(out) && rd(src) == len(src) && fieldCounts != nil
+//@   loop 3 invariant strkeys: forall q:Any :: has(fieldCounts, q) ==> isAStr(q)
+//@   loop 3 invariant counts: forall n:Str :: (has(fieldCounts, AStr(n)) <==> kcnt(n, len(src)) > 0) && (has(fieldCounts, AStr(n)) ==> fieldCounts[AStr(n)] == kcnt(n, len(src)))
+//@   loop 3 invariant rows: forall m :: 0 <= m && m < wr(out) ==> dyn(out[m], "*gdbi.BaseTraveler") && ptr(out[m], "*gdbi.BaseTraveler") > 0 && ptr(out[m], "*gdbi.BaseTraveler") < alloc &&
+//@       ptr(out[m], "*gdbi.BaseTraveler").Aggregation > 0 && ptr(out[m], "*gdbi.BaseTraveler").Aggregation < alloc &&
+//@       ptr(out[m], "*gdbi.BaseTraveler").Aggregation.Name == a.Name && isAStr(ptr(out[m], "*gdbi.BaseTraveler").Aggregation.Key) &&
+//@       kcnt(astr(ptr(out[m], "*gdbi.BaseTraveler").Aggregation.Key), len(src)) > 0 &&
+//@       same(ptr(out[m], "*gdbi.BaseTraveler").Aggregation.Value, i2f(kcnt(astr(ptr(out[m], "*gdbi.BaseTraveler").Aggregation.Key), len(src))))
+//@   ensures drained: rd(src) == len(src)
+//@   ensures rows: forall m :: 0 <= m && m < wr(out) ==> dyn(out[m], "*gdbi.BaseTraveler") && ptr(out[m], "*gdbi.BaseTraveler") != nil &&
+//@       ptr(out[m], "*gdbi.BaseTraveler").Aggregation != nil &&
+//@       ptr(out[m], "*gdbi.BaseTraveler").Aggregation.Name == a.Name && isAStr(ptr(out[m], "*gdbi.BaseTraveler").Aggregation.Key) &&
+//@       kcnt(astr(ptr(out[m], "*gdbi.BaseTraveler").Aggregation.Key), len(src)) > 0 &&
+//@       same(ptr(out[m], "*gdbi.BaseTraveler").Aggregation.Value, i2f(kcnt(astr(ptr(out[m], "*gdbi.BaseTraveler").Aggregation.Key), len(src))))
+
 // ---- C01: both()/bothE() -------------------------------------------------------------
 // The step runs two inner steps (in and out direction) over the same input: a signal is
 // forwarded at once; every other traveler is handed, in order, to each inner step; when
